@@ -89,7 +89,9 @@ func applyRootFaults(r *idp.Response, f pRoot) {
 	case "absent":
 		r.Version = nil
 	case "wrong":
-		r.Version = idp.S("1.1")
+		// other versions, and strings that only a numeric reading would take for 2.0
+		vs := []string{"1.1", "1.0", "2.1", "2", "2.00", "02.0", "+2.0", "2.-0", "2.0.0", " 2.0", "2.0 ", "\uff12.0", "2,0", "2.0e0"}
+		r.Version = idp.S(vs[nearRng.Intn(len(vs))])
 	}
 	switch f.Dest {
 	case "other":
